@@ -131,6 +131,25 @@ def ob_level(ctx):
         earlier = NL(other)
         ctx.witness("earlier-accepted", earlier.is_valid())
         ctx.earlier = earlier
+    if P.get("rotate") == "product-window":
+        # the same product plasmid renumbered so that its origin falls inside the upstream next-level site, spacer or
+        # overhang (the first letters of the next-level structure): same verdict, overhangs and target
+        first = NL(prod)
+        ctx.require(first.is_valid() is True, "product-rejected-by-next-level-class")
+        s0 = ival(first._match.start())
+        if not isinstance(s0, int):
+            ctx.checked()
+            return True
+        ref_t, ref_s, ref_e = sdata(first.target_sequence().seq), first.overhang_start(), first.overhang_end()
+        offsets = P["window"]
+        prod = prod << (s0 + offsets[mk.pick("into", len(offsets))])
+        again = NL(prod)
+        ctx.require(again.is_valid() is True, "renumbered-product-rejected-by-next-level-class")
+        ctx.require(seq_eq(again.overhang_start(), ref_s) and True, "renumbering-changes-the-upstream-overhang")
+        ctx.require(seq_eq(again.overhang_end(), ref_e), "renumbering-changes-the-downstream-overhang")
+        ctx.require(seq_eq(sdata(again.target_sequence().seq), ref_t), "renumbering-changes-the-next-level-target")
+        ctx.witness("reached-next-level")
+        return True
     nxt = NL(prod)
     v = nxt.is_valid()
     ctx.observe("next-valid", v)
@@ -174,6 +193,14 @@ def obligations(tier, seed):
                 obs.append(Ob("%s.%s + 1 insert -> %s, a namesake of the product typed before" % (kit, vname, nname), ob_level,
                               dict(kit=kit, vector=vname, next=nname, kind=kind, n=F + 1, inserts=1, history=True), samples=3,
                               cost=(F + 1) ** 3, expect_witness=("reached-next-level", "earlier-accepted"), group="history"))
+            if c == 1 and (tier != "quick" or kit == "cidar"):
+                gN = Geometry(kit_class(st, kit, nname).cutter)
+                obs.append(Ob("%s.%s + 1 insert -> %s, product renumbered into the upstream next-level site" % (kit, vname, nname),
+                              ob_level, dict(kit=kit, vector=vname, next=nname, kind=kind, n=F + 1, inserts=1,
+                                             rotate="product-window",
+                                             window=sorted({1, gN.L - 1, gN.L, gN.lo}) if tier == "quick" else list(range(1, gN.lo + 2))),
+                              samples=3, cost=(F + 1) ** 3 * 4,
+                              expect_witness=("reached-next-level",), group="product window"))
             if c == 1 and kit == "cidar" and vname == "CIDAREntryVector":
                 for typed in tier_pick(tier, ["CIDARPromoter"], ["CIDARPromoter", "CIDARCodingSequence", "CIDARTerminator"]):
                     obs.append(Ob("%s.%s + 1 insert -> typed part %s, a namesake of the product typed before" % (kit, vname, typed),
